@@ -303,6 +303,18 @@ def run(tier: str, seed: int) -> Result:
                             if noise and msg.ByteSize() > 60000:
                                 continue
                         batch = [msg] if idx % 3 else [msg, klass()]
+                        if variant == "default" and idx % 5 == 0:
+                            # a batch the caller got wrong (its second message has no wire id): it must be refused as a whole - nothing
+                            # written, no nonce consumed - so that the next correct batch is still decodable
+                            n_w = len(sock.sent)
+                            try:
+                                w.conn.send_messages((klass(), pb.ExecuteServiceArgument(), klass()))
+                                res.add(f"conn:{'noise' if noise else 'plain'}:bad-batch:accepted", "a batch containing a message without a wire id was accepted", {})
+                            except Exception:  # noqa: BLE001
+                                pass
+                            if len(sock.sent) != n_w:
+                                res.add(f"conn:{'noise' if noise else 'plain'}:bad-batch:wrote", "a refused batch wrote bytes to the transport", {})
+                                base_writes = len(sock.sent)
                         c.evals += 1
                         key = f"conn:{'noise' if noise else 'plain'}{':debug' if debug else ''}:{klass.__name__}:{variant}"
                         try:
@@ -350,6 +362,42 @@ def run(tier: str, seed: int) -> Result:
                             sent_types += 1
             finally:
                 w.close()
+        # backpressure: the socket cannot take (all of) the bytes, asyncio queues what it was handed and flushes it later
+        for noise in (False, True):
+            for mode in ("blocked", "partial-1", "partial-9", "blocked-after-first"):
+                w = ConnWorld(noise=noise)
+                try:
+                    w.connect_fully()
+                    sock = w.sock
+                    assert sock is not None
+                    f0 = len(w.sent_frames())
+                    batches = [(pb.PingRequest(),), (pbgen.populate(pb.LightCommandRequest(), 3), pb.SubscribeStatesRequest()),
+                               (pbgen.populate(pb.BluetoothGATTWriteRequest(), 5),), (pb.DeviceInfoRequest(), pb.ListEntitiesRequest(), pb.PingRequest())]
+                    if mode == "blocked":
+                        sock.writable = False
+                    elif mode.startswith("partial"):
+                        sock.send_limit = int(mode.split("-")[1])
+                    key = f"conn:{'noise' if noise else 'plain'}:backpressure:{mode}"
+                    try:
+                        for i, b in enumerate(batches):
+                            if mode == "blocked-after-first" and i == 1:
+                                sock.writable = False
+                            w.conn.send_messages(b)
+                            c.evals += 1
+                        sock.writable = True
+                        w.drain()
+                        frames = w.sent_frames()[f0:]
+                    except Exception as e:  # noqa: BLE001
+                        res.add(key, f"sending while the socket was {mode}: {type(e).__name__}: {e}", {})
+                        continue
+                    want = [(n2i[type(m).__name__], m.SerializeToString()) for b in batches for m in b]
+                    if frames != want:
+                        res.add(key, f"batches sent while the socket was {mode}: the bytes that finally reached the device decode to "
+                                f"{[(t, len(p)) for t, p in frames]}, expected {[(t, len(p)) for t, p in want]}", {})
+                    else:
+                        c.distinct.add(key)
+                finally:
+                    w.close()
     finally:
         loop.uninstall()
     if not res.violations and (c.evals < 50000 or nonce_reached < 65600):
